@@ -767,7 +767,10 @@ func (a *opAd) Deploy(ctx context.Context, r *workerpb.DeployOperatorRequest) (e
 	if a.c.OnOperatorDeploy != nil {
 		a.c.OnOperatorDeploy(rec)
 	}
-	rec.Err = w.Op.HandleDeploy(ctx, r, &embedded.RecordingSink{})
+	rec.Err = func() (e error) {
+		defer a.c.rpcRecover("Deploy("+a.node.Id+")", &e) // a panic while the database is opened is a failed Deploy
+		return w.Op.HandleDeploy(ctx, r, &embedded.RecordingSink{})
+	}()
 	return rec.Err
 }
 
